@@ -46,7 +46,7 @@ def back_ok(back, x):
     return True
 
 
-def run(chk, S: Session):
+def _run_own(chk, S: Session):
     chk.trust("tree.ravel_pytree order and inverse", "np.stack(xs)[i] == xs[i]", "(x.T).T == x")
     r1 = chk.rule("R-C15-1", "TreeFlatten layouts: documented layout, symbolic round trip, own-tree_flatten discipline of the Normal classes", floor=18)
     r2 = chk.rule("R-C15-2", "userfriendly_output prepends the initial state on a new leading time axis (t and u)", floor=6)
@@ -262,3 +262,12 @@ def pytree_registration_rules(chk, S):
             used = any(p in list(T.subterms(v)) for v in x.fields.values() if isinstance(v, (T.Term, list, tuple)))
             if used:
                 r3.require(nm in carried, f"{name} carries {nm.split('.', 1)[1]}", "in children or aux", f"constructor argument {nm} is neither a child nor auxiliary data", where)
+
+
+def run(chk, S: Session):
+    _run_own(chk, S)
+    from ..harness import borrow
+
+    rb = chk.rule("R-C15-B", "clauses of this statement decided by rules of C07 (contraction rate independent of the leaf structure) and C18 (step helpers consume the whole pytree state)", floor=3)
+    borrow(chk, S, rb, "C07", lambda r, c: r == "R-C07-3")
+    borrow(chk, S, rb, "C18", lambda r, c: r == "R-C18-2" and "whole pytree" in c)
